@@ -26,6 +26,8 @@ type WState struct {
 type World struct {
 	Chains []*Chain
 	Now    time.Time
+	// LastMsg is the message the last Relay* call delivered (so that it can be replayed verbatim later).
+	LastMsg sdk.Msg
 }
 
 // Idx returns the index of the chain called name, or -1.
@@ -224,6 +226,7 @@ func (w *World) RelayRecv(p packettypes.Packet, at *Chain) (TxRes, error) {
 	if err != nil {
 		return TxRes{}, err
 	}
+	w.LastMsg = msg
 	return w.Tx(at, at.Relayer(), msg), nil
 }
 
@@ -237,6 +240,7 @@ func (w *World) RelayAck(p packettypes.Packet, ack []byte, at *Chain) (TxRes, er
 	if err != nil {
 		return TxRes{}, err
 	}
+	w.LastMsg = msg
 	return w.Tx(at, at.Relayer(), msg), nil
 }
 
@@ -254,6 +258,7 @@ func (w *World) RelayClean(cp packettypes.CleanPacket, at *Chain) (TxRes, error)
 	if err != nil {
 		return TxRes{}, err
 	}
+	w.LastMsg = msg
 	return w.Tx(at, at.Relayer(), msg), nil
 }
 
